@@ -27,6 +27,9 @@ type Config struct {
 	Witness       bool // witness mode: verifWitnessMode() returns true
 	Trace         bool
 	MaxViolations int
+	// TermBound: a path that exhausts its instruction budget or a loop limit is reported as a violation of the bounded
+	// termination assertion "terminates-within-the-step-bound" (with the path's witness) instead of making the run inconclusive.
+	TermBound     bool
 	Deadline      time.Time
 	NoMergeFuncs  map[string]bool
 	Params        map[string]int // values returned by verifParam(name)
@@ -237,6 +240,11 @@ func (e *Exec) finish(st *State, outcome, detail string) {
 	e.Outcomes[outcome]++
 	if len(e.Samples) < 12 || (outcome != "ok" && outcome != "infeasible" && len(e.Samples) < 40) {
 		e.Samples = append(e.Samples, PathSample{Outcome: outcome, Detail: detail, Witness: e.witnessVals(st), PCSize: pcLen(st.pc), Instrs: st.instrs, Notes: st.notes})
+	}
+	if outcome == "bound-exceeded" && e.cfg.TermBound && (detail == "instruction budget" || strings.HasPrefix(detail, "loop limit")) {
+		e.addViolation(st, "assert", "terminates-within-the-step-bound", detail)
+		e.Outcomes["violation"]++
+		return
 	}
 	switch outcome {
 	case "panic", "fatal":
